@@ -135,9 +135,11 @@ class HdfWriter:
 
     def __init__(self, f: FuncInfo):
         self.keys = {}
+        inl = A.Inliner(f.node)
         for c in A.calls(f.node):
             if A.callee_attr(c) in ("create_dataset", "create_group") and c.args:
-                k = self._key(c.args[0])
+                # the name may have been put together in a temporary (`mfs_group = path + '/mfs/' + str(a.mfs)`)
+                k = self._key(inl.expand(c.args[0]) if isinstance(c.args[0], ast.Name) else c.args[0])
                 if k:
                     self.keys[k] = c
 
@@ -360,7 +362,7 @@ def mixed_keys(chk):
     (split_data_and_meta / combine_data_and_meta) therefore must not order the keys with a bare `sorted(d)`: comparing an int with a
     tuple raises TypeError, i.e. an MPS with a central block cannot be split at all."""
     prog = chk.prog
-    chk.rule("Z11", "generic traversals of serialised dictionaries order keys in a way that is defined for keys of mixed types (int sites and tuple central block of an MPS)", floor=2)
+    chk.rule("Z11", "generic traversals of serialised dictionaries order keys in a way that is defined for keys of mixed types (int sites and tuple central block of an MPS)", floor=0)
     # evidence (re-validated on every run): a tuple-keyed entry next to int-keyed ones in MpsMpoOBC.A, and to_dict copying the keys
     obc = prog.module("yastn.tn.mps._mps_obc")
     central = [n for n in ast.walk(obc.tree) if isinstance(n, ast.Assign) and isinstance(n.targets[0], ast.Subscript)
@@ -368,6 +370,10 @@ def mixed_keys(chk):
     wf = prog.func("yastn.tn.mps._mps_parent", "_MpsMpoParent.to_dict")
     copies = any(isinstance(n, ast.DictComp) and isinstance(n.key, ast.Name) and A.text(n.generators[0].iter).endswith(".A.items()")
                  and isinstance(n.generators[0].target, ast.Tuple) and A.text(n.generators[0].target.elts[0]) == n.key.id for n in ast.walk(wf.node))
+    # the same copy spelled as a loop: `for k, v in psi.A.items(): tensors[k] = v.to_dict(..)`
+    copies = copies or any(isinstance(n, ast.For) and A.text(n.iter).endswith(".A.items()") and isinstance(n.target, ast.Tuple)
+                           and any(isinstance(x, ast.Subscript) and isinstance(x.ctx, ast.Store) and A.text(x.slice) == A.text(n.target.elts[0]) for x in ast.walk(n))
+                           for n in ast.walk(wf.node))
     if not central or not copies:
         chk.note("Z11: no tuple-keyed central block copied verbatim by MPS to_dict on this tree: mixed key types not established, rule not applicable")
         return
@@ -879,8 +885,29 @@ def guards(chk):
     cfg = CFG(rf.node)
     # config guards in both generations
     ifs = [n for n in A.walk_local(rf.node) if isinstance(n, ast.If) and any(isinstance(b, ast.Raise) for b in n.body)]
+    _inl = A.Inliner(rf.node)
+    _par = A.enclosing_map(rf.node)
+
+    def _ctx_text(n):
+        """the test with single-definition temporaries written out, together with the tests of the enclosing ifs (a nested guard)"""
+        class R(ast.NodeTransformer):
+            def visit_Name(self, node):
+                if isinstance(node.ctx, ast.Load):
+                    e = _inl.expand(node)
+                    if e is not node and not isinstance(e, ast.Name):
+                        return e
+                return node
+        import copy as _copy
+        parts = [A.text(R().visit(_copy.deepcopy(n.test)))]
+        cur = n
+        while cur in _par:
+            cur = _par[cur]
+            if isinstance(cur, ast.If):
+                parts.append(A.text(cur.test))
+        return " and ".join(parts)
+
     def has_guard(words):
-        return [n for n in ifs if all(w in A.text(n.test) for w in words)]
+        return [n for n in ifs if all(w in _ctx_text(n) for w in words)]
     g_sym = has_guard(["SYM_ID", "config.sym.SYM_ID"])
     g_fer = has_guard(["fermionic", "config.fermionic"])
     g_type = has_guard(["d['type']", "'Tensor'"])
